@@ -116,6 +116,11 @@ func Generate(rng *rand.Rand) *uni.Universe {
 			return "(,1.1],[1.2,3.1)"
 		case k < 37:
 			return "9.9" // a soft requirement on a version that does not exist
+		case k < 39:
+			// One point with an excluded end: Maven refuses the text, the
+			// repository reads it as a range that contains nothing. Either
+			// way no version may be selected for it.
+			return []string{"[" + v + "," + v + ")", "(" + v + "," + v + "]", "(" + v + "," + v + ")"}[rng.Intn(3)]
 		}
 		return v
 	}
